@@ -146,12 +146,47 @@ pub fn one(cred_i: usize, cfg: &Cfg, exp: &TimeVal, nbf: &TimeVal, must_accept: 
 fn trigger_of(exp: &TimeVal, nbf: &TimeVal, must_accept: bool) -> String {
     if must_accept {
         "in_window".into()
+    } else if exp.label.starts_with("sweep:now-") {
+        "exp:sweep_past".into()
     } else if exp_reject().iter().any(|e| e.label == exp.label) {
         format!("exp:{}", exp.label)
     } else {
         let _ = nbf;
         "nbf_in_future".into()
     }
+}
+
+/// Offsets (seconds from the boundary-exempt zone outward) for the resolution sweep: quick = every minute of
+/// the first hour and every day of the first month; thorough = every second of the first hour, every hour of
+/// two days, every day of 400 days, every year of 50.
+pub fn sweep_offsets(quick: bool) -> Vec<i64> {
+    let mut v: Vec<i64> = vec![];
+    if quick {
+        v.extend((0..60).map(|k| 300 + 60 * k));
+        v.extend((2..=30).map(|d| d * 86400));
+    } else {
+        v.extend((0..=3600).map(|k| 300 + k));
+        v.extend((2..=48).map(|h| h * 3600));
+        v.extend((3..=400).map(|d| d * 86400));
+        v.extend((2..=50).map(|y| y * Y));
+    }
+    v
+}
+fn leak(s: String) -> &'static str {
+    Box::leak(s.into_boxed_str())
+}
+/// (exp, nbf, must_accept) for the sweep: one of the two claims walks the offsets, the other is comfortable.
+pub fn sweep_grid(quick: bool) -> Vec<(TimeVal, TimeVal, bool)> {
+    let mut g = vec![];
+    let absent = fix("absent", Value::Null);
+    let exp_ok = rel("now+1d", 86400);
+    for o in sweep_offsets(quick) {
+        g.push((rel(leak(format!("sweep:now-{o}")), -o), absent.clone(), false));
+        g.push((rel(leak(format!("sweep:now+{o}")), o), absent.clone(), true));
+        g.push((exp_ok.clone(), rel(leak(format!("sweep:now+{o}")), o), false));
+        g.push((exp_ok.clone(), rel(leak(format!("sweep:now-{o}")), -o), true));
+    }
+    g
 }
 
 pub fn creds() -> Vec<(Value, Strat, Map<String, Value>)> {
@@ -204,6 +239,28 @@ pub fn run(rep: &Report) {
         one(*ci, cfg, e, n, *acc, *direct, l);
     });
     rep.scope_done(json!({"scope": "2 credentials x 2 formats x kb off/on x algs x 22 exp values x 9 nbf values x {through issuer+holder, harness-signed}", "grid_points": g.len(), "evaluations": rep.evals()}));
+    // resolution sweep
+    let quick = rep.quick();
+    let sg = sweep_grid(quick);
+    let before = rep.evals();
+    let mut items = vec![];
+    for fmt in codec::FMTS {
+        for hk in [Hk::None, Hk::Es] {
+            for alg in if quick { vec![Alg::HS256] } else { vec![Alg::HS256, Alg::ES256] } {
+                for direct in [false, true] {
+                    for gi in 0..sg.len() {
+                        items.push((Cfg { fmt, alg, decoys: false, hk }, gi, direct));
+                    }
+                }
+            }
+        }
+    }
+    par_for(rep, items.len(), |i, l| {
+        let (cfg, gi, direct) = &items[i];
+        let (e, n, acc) = &sg[*gi];
+        one(1, cfg, e, n, *acc, *direct, l);
+    });
+    rep.scope_done(json!({"scope": if quick { "resolution sweep: exp / nbf at every minute of the first hour beyond the exempt zone and every day of a month, on either side of now, x 2 formats x kb off/on x {through issuer+holder, harness-signed}" } else { "resolution sweep: exp / nbf at every second of the first hour beyond the exempt zone, every hour of two days, every day of 400 days, every year of 50, on either side of now, x 2 formats x kb off/on x 2 algs x {through issuer+holder, harness-signed}" }, "offsets": sweep_offsets(quick).len(), "grid_points": sg.len(), "evaluations": rep.evals() - before}));
     rep.sample(json!({"cred": creds()[1].0, "exp": "now-300", "nbf": "absent", "expect": "Err"}));
     rep.sample(json!({"cred": creds()[0].0, "exp": "now+3600", "nbf": "now+300", "expect": "Err"}));
     rep.sample(json!({"cred": creds()[0].0, "exp": "now+300", "nbf": "now-300", "expect": "Ok"}));
@@ -217,8 +274,13 @@ pub fn replay(case: &Value) -> Vec<Violation> {
     let find = |list: Vec<TimeVal>, label: &str| list.into_iter().find(|t| t.label == label);
     let el = case["exp"].as_str().unwrap();
     let nl = case["nbf"].as_str().unwrap();
-    let e = find(exp_reject(), el).or_else(|| find(exp_accept(), el)).unwrap();
-    let n = find(nbf_accept(), nl).or_else(|| find(nbf_reject(), nl)).unwrap();
+    let sweep = |label: &str| -> Option<TimeVal> {
+        let rest = label.strip_prefix("sweep:now")?;
+        let off: i64 = rest.parse().ok()?;
+        Some(rel(leak(label.to_string()), off))
+    };
+    let e = find(exp_reject(), el).or_else(|| find(exp_accept(), el)).or_else(|| sweep(el)).unwrap();
+    let n = find(nbf_accept(), nl).or_else(|| find(nbf_reject(), nl)).or_else(|| sweep(nl)).unwrap();
     one(case["cred"].as_u64().unwrap() as usize, &Cfg::from_json(&case["cfg"]), &e, &n, case["must_accept"].as_bool().unwrap(), case["direct"].as_bool().unwrap(), &mut l);
     l.violations()
 }
